@@ -110,6 +110,12 @@ impl VideoState {
     self.current_mode
   }
 
+  /// Verification hook: (mode, dots spent in that mode, line)
+  #[cfg(gb_dynarec_verif)]
+  pub fn verif_position(&self) -> (u8, usize, u8) {
+    (self.current_mode, self.current_mode_dots, self.current_line)
+  }
+
   pub fn set_lcd_control(&mut self, value: u8) {
     self.lcd.set_enabled(value & 0x80 != 0);
     self.window_map_offset = if value & 0x40 == 0 {
